@@ -93,6 +93,8 @@ def plan(rng, idx, tier):
     for i in range(nsrc):
         r = rng.sub('src', i)
         ng = r.weighted([(0, 1), (1, 5), (2, 3), (3, 1)])
+        if idx % 500 == 250 and i == 0:
+            ng = r.sub('many').pick([130, 300, 900])      # thresholds in the number of graphs / of bad graphs
         graphs = []
         bad_at = r.randrange(ng) if (i in bad_src and ng) else None
         for j in range(ng):
